@@ -2,7 +2,7 @@
 """Seeded generator of DSL programs (docs/INTERFACE.md). One PRNG state drives every choice.
 
 usage: gen.py <profile> <seed> <count> <outdir>
-profiles: dispatch recursion lifetime poll accessor mixed stale xw
+profiles: dispatch recursion lifetime poll accessor mixed stale xw once
 """
 import random, sys, os
 
@@ -76,12 +76,18 @@ class G:
         self.spawned.append(s)
         k = r.choice(['on', 'on', 'onp', 'onr', 'once', 'sps', 'spsreg'])
         if self.profile == 'lifetime': k = r.choice(['on', 'onr', 'onr', 'once', 'onp', 'spsreg'])
+        if self.profile == 'once': k = r.choice(['once', 'once', 'once', 'onr', 'on', 'spsreg'])
         if k == 'sps': return [f'sps:{s}']
         if k == 'spsreg':
             self.tok += 1; self.tokens.append(self.tok)
             return [f'sps:{s}', f'reg:{self.tok}:{r.choice("pcr")}:{s}:{self.bundle()}']
         if k in ('onr', 'once'):
             self.tok += 1; self.tokens.append(self.tok)
+            if self.profile == 'once' and r.random() < 0.8:
+                # multi-trigger bundles over hot keys: several of them can fire in one tree
+                n = r.choice([0, 1, 2, 2, 3, 3])
+                b = '[' + ','.join(self.trigger(['dsp', 'dsp', 'dsp', 'bc', 'ee', 'emut', 'res', 'mut']) for _ in range(n)) + ']'
+                return [f'{k}:{self.tok}:{s}:{b}']
             return [f'{k}:{self.tok}:{s}:{self.bundle()}']
         return [f'{k}:{s}:{self.bundle()}']
 
@@ -105,6 +111,8 @@ class G:
             w.update({'mut': 6, 'sin': 6, 'gnr': 3, 'rd': 3, 'tres': 4, 'sres': 4, 'nres': 2, 'ins': 5, 'dsp': 2})
         elif prof == 'stale':
             w.update({'dsp': 4, 'dspsys': 4, 'rev': 3})
+        elif prof == 'once':
+            w.update({'dsp': 5, 'bc': 5, 'ee': 4, 'mut': 3, 'tres': 2, 'rev': 3, 'spawn': 3, 'gc': 2, 'run': 1, 'sev': 1})
         if self.use_w: w['w'] = 4 if prof == 'xw' else 1.5
         if self.use_x: w['x'] = 5 if prof == 'xw' else 1.5
         ks = list(w.keys())
@@ -145,8 +153,9 @@ class G:
             shapes = {0: ['emut.0', 'ee.0'], 1: ['eins.0', 'erem.1', 'emut.1']}
             e = self.ent()
             ts = [f'{t}.{e}' for t in shapes[xi] if r.random() < 0.6]
-            if r.random() < 0.3:
-                e2 = self.ent(); ts += [f'{t}.{e2}' for t in shapes[xi] if r.random() < 0.5]
+            # removal bundles naming several entities: partial removal for some, last trigger for others, unregistered ones
+            for _ in range(r.choice([0, 0, 1, 1, 2])):
+                e2 = r.choice(self.ents); ts += [f'{t}.{e2}' for t in shapes[xi] if r.random() < 0.7]
             return [f'xrr:{xi}:[' + ','.join(ts) + ']']
         raise AssertionError(k)
 
@@ -154,8 +163,10 @@ class G:
         """2-4 deliveries of related kinds in a row (several events pending for one system, several removals
         between two polls, several reactors hit by one key)"""
         r = self.r
-        k = r.choice(['sev', 'bc', 'ee', 'rm', 'mix', 'runs', 'insrm'])
+        k = r.choice(['sev', 'bc', 'ee', 'rm', 'mix', 'runs', 'insrm', 'dsps'])
+        if self.profile == 'once' and r.random() < 0.4: k = r.choice(['dsps', 'dsps', 'bc', 'ee'])
         n = r.randint(2, 4)
+        if k == 'dsps': return [f'dsp:{e}' for e in r.sample(self.ents, min(n, len(self.ents)))]
         if k == 'sev':
             t = self.target(); return [f'sev:{t}:{self.ty()}:{self.p()}' for _ in range(n)]
         if k == 'bc': return [f'bc:{self.ty()}:{self.p()}' for _ in range(n)]
@@ -243,7 +254,7 @@ def generate(profile, seed, idx):
     rng = random.Random((seed * 1000003 + idx) ^ hash_profile(profile))
     prof = profile
     if profile == 'mixed':
-        prof = rng.choice(['dispatch', 'recursion', 'lifetime', 'poll', 'accessor', 'stale', 'xw', 'mixed'])
+        prof = rng.choice(['dispatch', 'recursion', 'lifetime', 'poll', 'accessor', 'stale', 'xw', 'once', 'mixed'])
     g = G(rng, prof)
     return g.build(f'{profile}-{seed}-{idx}')
 
